@@ -235,7 +235,7 @@ def run_table(shard, rec):
 def plan(tier, seed):
     shards = table_shards()
     slots = all_slots()
-    per_slot = 120 if tier == 'quick' else 6000
+    per_slot = 120 if tier == 'quick' else 1800
     nsh = 32 if tier == 'quick' else 64
     for i in range(nsh):
         sl = slots[i::nsh]
@@ -259,6 +259,6 @@ def replay(case):
 
 MANIFEST_ENTRY = {
     'technique': 'reference-model differential: exhaustive enumeration of the 8-bit table input spaces + Hypothesis-generated CPU states per opcode slot, four implementations vs an independent Z80 interpreter',
-    'level_text': 'All inputs of the 8-bit ALU/rotate/BIT/DAA/NEG/RLD/RRD/IN/LD A,I spaces (about 2.0M executions x 4 implementations) are enumerated completely; every one of the 1792 opcode slots is then executed from >=100 (quick) / >=5000 (thorough) boundary-biased generated states on all four implementations and compared with ref/z80ref on registers, documented flags, memory, ports, PC, IFF/IM/HALT and T-states.',
+    'level_text': 'All inputs of the 8-bit ALU/rotate/BIT/DAA/NEG/RLD/RRD/IN/LD A,I spaces (about 2.0M executions x 4 implementations) are enumerated completely; every one of the 1792 opcode slots is then executed from >=100 (quick) / >=1500 (thorough) boundary-biased generated states on all four implementations and compared with ref/z80ref on registers, documented flags, memory, ports, PC, IFF/IM/HALT and T-states.',
     'level_note': 'Trusted: ref/z80ref.py (hand-written from the Zilog manual; self-tested by setup.sh; cross-checked against 3 opcode tables in C07). Only documented flag bits are compared; 16-bit and memory-addressed operands are sampled, not enumerated.',
 }
